@@ -95,17 +95,27 @@ TEMPLATES = [
     ('UPDATE on set', ['nat', 'bool', 'set nat'], [P('UPDATE')]),
     ('GET_AND_UPDATE on map', ['int', 'option bool', 'map int bool'], [P('GET_AND_UPDATE')]),
     ('EMPTY_MAP then UPDATE then GET', ['string', 'int'], [P('SOME'), P('SWAP'), P('DUP'), P('DUG', I(2)), P('EMPTY_MAP', ty('int'), ty('string')), P('DUG', I(2)), P('UPDATE'), P('SWAP'), P('GET')]),
+    ('MAP over option', ['option nat'], [P('MAP', [P('INT')])]),
     ('ITER over map', ['map int int', 'int'], [P('ITER', [P('UNPAIR'), P('ADD'), P('ADD')])]),
     ('ITER over set', ['set int', 'int'], [P('ITER', [P('ADD')])]),
     ('LAMBDA;EXEC', ['int'], [P('LAMBDA', ty('int'), ty('int'), [push('int', I(1)), P('ADD')]), P('SWAP'), P('EXEC')]),
     ('LAMBDA;APPLY;EXEC', ['int', 'int'], [P('LAMBDA', ty('pair int int'), ty('int'), [P('UNPAIR'), P('SUB')]), P('SWAP'), P('APPLY'), P('SWAP'), P('EXEC')]),
     ('LAMBDA twice', ['int'], [P('LAMBDA', ty('int'), ty('int'), [P('DUP'), P('MUL')]), P('DUP'), P('DIP', [P('SWAP')]), P('SWAP'), P('EXEC'), P('EXEC')]),
+    ('LAMBDA_REC body ignores the lambda', ['int'], [P('LAMBDA_REC', ty('int'), ty('int'), [P('DIP', [P('DROP')]), push('int', I(1)), P('ADD')]), P('SWAP'), P('EXEC')]),
+    ('LAMBDA_REC one recursive call', ['int'], [P('LAMBDA_REC', ty('int'), ty('int'), [P('DUP'), P('EQ'), P('IF', [P('DIP', [P('DROP')])], [P('DROP'), push('int', I(0)), P('EXEC')])]), P('SWAP'), P('EXEC')]),
     ('FAILWITH', ['string', 'int'], [P('PAIR'), P('FAILWITH')]),
     ('IF;FAILWITH', ['bool', 'int'], [P('IF', [], [push('string', S('neg')), P('FAILWITH')])]),
     ('PAIR', ['int', 'nat'], [P('PAIR')]),
     ('PAIR 3', ['int', 'nat', 'string', 'bool'], [P('PAIR', I(3))]),
     ('UNPAIR', ['pair int nat', 'string'], [P('UNPAIR')]),
     ('UNPAIR 3', ['pair int (pair nat string)'], [P('UNPAIR', I(3))]),
+    ('ISNAT', ['int'], [P('ISNAT')]),
+    ('EDIV int by 3', ['int'], [push('int', I(3)), P('SWAP'), P('EDIV')]),
+    ('EDIV int by 0', ['int'], [push('int', I(0)), P('SWAP'), P('EDIV')]),
+    ('EDIV nat by nat 5', ['nat'], [push('nat', I(5)), P('SWAP'), P('EDIV')]),
+    ('EDIV nat by 0', ['nat'], [push('nat', I(0)), P('SWAP'), P('EDIV')]),
+    ('EDIV mutez by nat 0', ['mutez'], [push('nat', I(0)), P('SWAP'), P('EDIV')]),
+    ('EDIV mutez by mutez 7', ['mutez'], [push('mutez', I(7)), P('SWAP'), P('EDIV')]),
     ('UNPAIR 2 on a 3-comb', ['pair int (pair nat string)', 'bool'], [P('UNPAIR', I(2))]),
     ('UNPAIR 2 on a 4-comb', ['pair int (pair nat (pair string bytes))'], [P('UNPAIR', I(2))]),
     ('UNPAIR 3 on a 4-comb', ['pair int (pair nat (pair string bytes))'], [P('UNPAIR', I(3))]),
